@@ -24,6 +24,7 @@ RULE = (
     "for coordinates / data / query separately and together; query shape 0-d / 1-d / 2-d; linearity fit(a d1 + b d2) = a fit(d1) + b fit(d2) "
     "for (a,b) in {(1,1),(2,-3),(.5,1e3),(1e-11,-3e-12),(1e9,1)} over all pairs of basis data}. Non-trivial: every case (each runs >= 2 executions). quick takes all "
     "4-subsets for layout/dtype/linearity, a seed-rotated sixth of the 5-subsets, and permutations of a seed-rotated third of the 4-subsets."
+    " Added axes: permuted-index pandas Series (all, data only, coordinates only, queries), force_coords containers, 3-D arrays, queries as columns / rows of one table, broadcastable query shapes (refused or equal to the broadcast prediction), near-meshgrid queries at (5e5, 7.5e6), 110 points in four other orders, parameter routes."
 )
 ASSUMPTIONS = ["layout / extra-coordinate / dtype transformations present the same element sequence: agreement required to 8 eps x scale "
                "(Cubic: SciPy's iterative gradient estimate is order dependent, 1e-4 x data range under permutations)",
